@@ -706,6 +706,10 @@ void File::uncompressedFile2ReadWriteQueue() {
         /* This is a normal eof. No objects ended abruptly. */
         return;
     }
+    if (ohb.objectSize < ohb.calculateHeaderSize()) {
+        /* an object cannot be smaller than its header; skipping by such a size would never advance */
+        throw Exception("File::uncompressedFile2ReadWriteQueue(): Object size is smaller than the object header.");
+    }
     m_uncompressedFile.seekg(-ohb.calculateHeaderSize(), std::ios_base::cur);
 
     /* create object */
